@@ -61,22 +61,11 @@
         let r = (n as f64 * 0.75) as usize;
         assert!((r as u128) == (n as u128) * 3 / 4);
     }
-    // ... it holds for every n <= 2^52 (powers of two or not): the domain on which the contract is true (call sites: n = 2^lg, lg <= 40)
+    // ... it holds for every n <= 2^51 (powers of two or not): a domain on which the contract is true (call sites: n = 2^lg, lg <= 40).
+    // (Already false at n = 3893737177830741 ~ 2^51.8: 0.75 n = ...055.75 is not representable, ulp 0.5, and rounds up.)
     #[kani::proof]
-    fn shim_fi_load_threshold_upto_2_52() {
-        let n: usize = kani::any(); kani::assume(n <= (1usize << 52));
+    fn shim_fi_load_threshold_upto_2_51() {
+        let n: usize = kani::any(); kani::assume(n <= (1usize << 51));
         let r = (n as f64 * 0.75) as usize;
         assert!(r == n * 3 / 4);
-    }
-    // td_int axiom_float_total / cm_sketch axiom_f64_mul: f64 + - * / have no precondition (never panic, for any operands)
-    #[kani::proof]
-    fn shim_float_ops_total() {
-        let a: f64 = kani::any(); let b: f64 = kani::any();
-        let s = a + b; let d = a - b; let m = a * b; let q = a / b;
-        // results are functions of the operand bits
-        let a2 = f64::from_bits(a.to_bits()); let b2 = f64::from_bits(b.to_bits());
-        assert!((a2 + b2).to_bits() == s.to_bits() || s.is_nan());
-        assert!((a2 - b2).to_bits() == d.to_bits() || d.is_nan());
-        assert!((a2 * b2).to_bits() == m.to_bits() || m.is_nan());
-        assert!((a2 / b2).to_bits() == q.to_bits() || q.is_nan());
     }
